@@ -152,10 +152,10 @@ class World:
             # noticed and refused is not a diagram that was handed back
             self.note("monitor_fired_before_a_refusal", len(W.MON.fired))
             W.MON.fired.clear()
-        if W.MON.fired:
-            msg, cls = W.MON.fired[0]
-            n = len(W.MON.fired)
-            W.MON.fired.clear()
+        alive = W.surviving_firings()
+        if alive:
+            msg, cls = alive[0]
+            n = len(alive)
             self.note("monitor_fired", n)
             if self.cfg.get("monitor_is_violation"):
                 raise Violation("C01.monitor", "while executing %s the library built an ill-typed %s on its "
